@@ -50,6 +50,15 @@ def run(ctx, report):
     R1 = report.rule('C09.D1', 'every decodable mnemonic/operand-size form has an AT&T mnemonic', floor=700)
     R2 = report.rule('C09.D2', 'the AT&T mnemonic maps back to the same instruction', floor=500)
     R6 = report.rule('C09.D6', 'MMX/SSE instructions keep their mnemonic in AT&T syntax', floor=500)
+    import os as _os
+    from ..core import VERIF as _V
+    irregular = {}
+    with open(_os.path.join(_V, 'ref', 'att_names.ref')) as f_:
+        for line in f_:
+            line = line.split('#')[0].split()
+            if len(line) == 2:
+                irregular.setdefault(line[1], set()).add(line[0])
+    R4i = report.rule('C09.D4', 'irregular AT&T spellings agree with GNU as', floor=10)
     seen = set()
     n_invalid = 0
     sse_names = set(printed_name(X, i_) for i_ in L.instances if i_.modifs.get(E['mmx']))
@@ -84,6 +93,13 @@ def run(ctx, report):
                          % (res, name, sig), where(arch, to_att.node), witness='row %s' % inst.row.key())
             continue
         R1.ok(iid, sample='%s (%s) -> %s' % (name, sig, res))
+        if name in irregular:
+            # an instruction GNU as spells differently (ref/att_names.ref) must be rendered under one of those spellings
+            if res in irregular[name] or (name in ('movsd', 'cmpsd') and inst.modifs.get(E['mmx'])):
+                R4i.ok(iid + ':spelling', sample='%s is %s in AT&T syntax' % (name, res))
+            else:
+                R4i.violation(iid + ':spelling', 'att-spelling:%s:%s' % (name, res), 'the instruction %s (%s) is rendered as %r in AT&T syntax; GNU as spells it %s' %
+                              (name, sig, res, ' / '.join(sorted(irregular[name]))), where(arch, to_att.node), witness="dis(ea 02 00 00 00 01 00) in AT&T syntax prints 'jmpf 1, $2'")
         if inst.modifs.get(E['mmx']):
             # GNU as uses the Intel mnemonics for MMX/SSE instructions (only the integer<->float conversions take an optional l/q suffix)
             if res == name or (name.startswith('cvt') and res[:-1] == name and res[-1] in 'lq'):
@@ -137,7 +153,7 @@ def run(ctx, report):
             R3.violation(tname, 'suffix-table:%s' % tname, 'two suffix letters of %s denote the same size: %s' % (tname, d), where(arch, arch.assigns['att_mnemo_table'][-1]))
 
 
-    R4 = report.rule('C09.D4', 'irregular AT&T spellings agree with GNU as', floor=10)
+    R4 = R4i
     import os
     from ..core import VERIF
     refnames = {}
